@@ -84,10 +84,26 @@ def confirm(src, sid):
                 if rc == 0:
                     return rc, out, a + 1
             return rc, out, n
-        rct, outt, at1 = attempt("go test -vet=off -count=1 -skip TestCheckTimeOfReword " + " ".join(sorted(set(pk))), 2)
+        # packages whose tests fail on the UNCHANGED tree (p2p/peer's TestPeerConnection panics at the pinned
+        # commit and is not in the baseline's stable_pass list) are not held against the patch
+        def failing_pkgs(out):
+            return set(l.split()[1] for l in out.splitlines() if l.startswith("FAIL\t") and len(l.split()) > 1)
+        sh(f"git apply -R {os.path.abspath(src)}/patch.diff", cwd=repo)
+        rcb0, outb0 = sh("go test -vet=off -count=1 -skip TestCheckTimeOfReword " + " ".join(sorted(set(pk))), cwd=repo, timeout=3000)
+        rc_re, out_re = sh(f"git apply {os.path.abspath(src)}/patch.diff", cwd=repo)
+        assert rc_re == 0, out_re
+        base_fail = failing_pkgs(outb0)
+        def attempt_pk(cmd, n):
+            for a in range(n):
+                rc, out = sh(cmd, cwd=repo, timeout=3000)
+                if rc == 0 or failing_pkgs(out) <= base_fail:
+                    return 0, out, a + 1
+            return rc, out, n
+        rct, outt, at1 = attempt_pk("go test -vet=off -count=1 -skip TestCheckTimeOfReword " + " ".join(sorted(set(pk))), 2)
         rcu, outu, at2 = attempt("go test -vet=off -count=1 ./test/unit/...", 8)
         fails = [l for l in (outt + outu).splitlines() if l.startswith("--- FAIL") or l.startswith("FAIL")]
-        log["existing_tests"] = {"rc": rct or rcu, "attempts_pkgs": at1, "attempts_test_unit": at2, "pkgs": pk + ["./test/unit/..."], "fail_lines": fails[:20]}
+        log["existing_tests"] = {"rc": rct or rcu, "attempts_pkgs": at1, "attempts_test_unit": at2, "pkgs": pk + ["./test/unit/..."], "fail_lines": fails[:20],
+                                 "packages_failing_on_unchanged_tree": sorted(base_fail)}
         rct = rct or rcu
         ok = rc0 == 0 and rcb == 0 and rc1 != 0 and rct == 0
         return ok, log
